@@ -662,8 +662,8 @@ func coqSrc(s *e2e.C11Spec, t *e2e.C11Test, logPath string) string {
 		}
 		files = append(files, fmt.Sprintf("{| rf_role := %s; rf_dest := %s; rf_node := %s |}", role, lib.Str(f.Dest), coqNode(f.Node)))
 	}
-	return fmt.Sprintf("{| ts_rule := %s; ts_cmds := %s; ts_files := %s; ts_bin := %s |}",
-		lib.StrList(t.RuleFields(logPath)), coqCmds(t, logPath), lib.List(files), lib.Str(rf[0].Node.Content))
+	return fmt.Sprintf("{| ts_rule := %s; ts_cmds := %s; ts_files := %s; ts_bin := %s; ts_build := %s |}",
+		lib.StrList(t.RuleFields(logPath)), coqCmds(t, logPath), lib.List(files), lib.Str(rf[0].Node.Content), lib.StrList(s.BuildFields(t, logPath)))
 }
 
 func reportOf(o e2e.C11Outcome) string {
@@ -780,7 +780,7 @@ func main() {
 			"distinct = distinct (history, step, target); non-trivial = a step after the first")
 		var plans []plan
 		plans = scriptedPlans(c.Thor)
-		nrandom := c.Scale(5, 60)
+		nrandom := c.Scale(8, 60)
 		steps := c.Scale(5, 7)
 		for i := 0; i < nrandom; i++ {
 			r := c.Rng.Fork()
@@ -851,7 +851,7 @@ func main() {
 					inc, fresh := st.Inc[name], st.Fresh[name]
 					stepTerm := fmt.Sprintf("{| s_rm := %s; s_config := %s; s_args := %s; s_src := %s |}", lib.Bool(st.Rm), lib.Str(st.Inv.Config),
 						lib.StrList(st.Inv.Args), coqSrc(st.Spec, t, h.LogPath))
-					obsTerm := fmt.Sprintf("{| o_report := %s; o_fresh := %s; o_nkeys := %s |}", reportOf(inc), lib.Bool(fresh.Passed), lib.Nat(st.NKeys[name]))
+					obsTerm := fmt.Sprintf("{| o_report := %s; o_fresh := %s; o_nkeys := %s; o_built := %s |}", reportOf(inc), lib.Bool(fresh.Passed), lib.Nat(st.NKeys[name]), lib.Bool(inc.Built))
 					items = append(items, lib.Pair(stepTerm, obsTerm))
 					sj := map[string]any{"history": h.Index, "kind": h.Kind, "cache_on": h.CacheOn, "step": i, "edit": st.Edit, "rm_plz_out": st.Rm, "invocation": "plz " + strings.Join(st.Inv.PlzArgs(), " "),
 						"files_replaced": st.Replace, "rewritten_same_inode": st.SameIno, "test": t,
